@@ -170,6 +170,12 @@ def run_brew_case(c, d, want_result=False):
         return ("bad", "", [("score-shape", "scores/descs do not match the input files")]) + ((None,) if want_result else ())
     if c.get("override", False):
         return ("override", "", []) + ((None,) if want_result else ())
+    nonfinite = sum(int((~np.isfinite(s)).sum()) for s in flat)
+    if nonfinite:       # nothing can be ranked or accepted by NaN/inf; seen with a constant decision_function whose
+        # per-fold calibration divides 0 by 0 when the all-tied scores "accept" every target
+        bad.append(("non-finite-scores-returned", "brew returned NaN/inf for %d of %d PSMs (estimator %s, descs=%s) instead "
+                    "of falling back to the best feature" % (nonfinite, sum(len(s) for s in flat), c["est"], list(descs))))
+        return ("bad", "", bad) + ((None,) if want_result else ())
     # the best single feature during training: per fold, accepted targets at train_fdr on the training rows
     split = fold_structure(c, frames, d)
     table = {}
@@ -214,6 +220,9 @@ def gen_brew_cases(tier, seed):
                         cases.append(dict(n_spec=[int(rng.integers(30, 61))], dup=2, data_seed=int(rng.integers(0, 10 ** 6)),
                                           encoding=enc, lower=lower, fmt=fmt, est=est, train_fdr=0.25, test_fdr=0.25,
                                           max_iter=int(rng.integers(1, 4)), folds=3, rng=int(rng.integers(0, 10 ** 6))))
+    # found by this check (thorough tier): constant decision_function on target-rich data -> all scores NaN
+    cases.append(dict(n_spec=[47], dup=1, data_seed=49986, encoding="1/-1", lower=False, fmt="tab", est="const-dec",
+                      train_fdr=0.25, test_fdr=0.5, max_iter=2, folds=2, rng=316499, p_target=0.8))
     extra = 40 if tier == "quick" else 600
     for k in range(extra):
         c = dict(n_spec=[int(rng.integers(20, 50)) for _ in range(int(rng.choice([1, 2, 3])))], dup=int(rng.integers(1, 4)),
@@ -240,7 +249,7 @@ def check_fallback(tier, seed):
                "(constant decision_function, constant predict_proba, inverted, memorising (inverted on unseen rows), two that "
                "reproduce the best feature) on %s dataset(s) of 30-60 spectra x 2 PSMs, 3 folds, train_fdr=test_fdr=0.25; + %d "
                "random configurations with seed %d: 1-3 files of 20-49 spectra x 1-3 PSMs, folds 2-4, train/test fdr in "
-               "{0.125,0.25,0.5}, 25%% target-rich data, 25%% Model(direction='f0'), 10%% override=True"
+               "{0.125,0.25,0.5}, 25%% target-rich data, 25%% Model(direction='f0'), 10%% override=True; + 1 fixed seed"
                % ("1" if tier == "quick" else "12", 40 if tier == "quick" else 600, seed),
                "non-trivial = brew returned and either fell back to a feature column or returned model scores that were "
                "compared with the best feature's count on the training folds; loud failures (documented RuntimeErrors) and "
